@@ -1,6 +1,7 @@
-(* C07 -- the autosave race (F-C07-autosave-writers-not-drained) as a concrete crash state of the model: threaded mode,
-   an autosave after stripe 3, the process dies after the autosave's save while the writers have not written anything yet.
-   Closed terms only, evaluated by vm_compute. *)
+(* C07 -- concrete crash points of the model (closed terms, vm_compute).
+   (1) the crash point of the former finding F-C07-autosave-writers-not-drained (threaded mode, an autosave after stripe 3, the
+   process dies right after the autosave's save): since the repair 6a618a2 the autosave is preceded by io_stop, so in EVERY io mode
+   the four scheduled writes are on disk there; (2) the parity truncated before the content save. *)
 From Coq Require Import NArith ZArith List Bool Arith Lia.
 From Snap.Array Require Import ArrayDefs SyncModel SyncProofsDefs.
 From Snap.Fault Require Import FaultModel FaultWitness KillProofs.
@@ -9,47 +10,27 @@ Import ListNotations.
 (* the witness array of FaultWitness.v (two disks, 8 stripes of additions, one parity level), autosave after stripe 3 *)
 Definition wtrace : list mev :=
   sync_trace hz 1024 1 wo 7 wfs (fun _ => []) (fun p => Nat.eqb p 3) (seq 0 8) None wc wpar.
-(* R S W0 W1 W2 W3 F S | W4 ... : the main thread has completed the autosave *)
-Definition wpre : list mev := firstn 8 wtrace.
-Definition wrest : list mev := skipn 8 wtrace.
+(* R S W0 W1 W2 W3 D F S | W4 ... : the main thread has completed the autosave *)
+Definition wpre : list mev := firstn 9 wtrace.
+Definition wrest : list mev := skipn 9 wtrace.
 Definition wks : list nat := [0].
 Definition wtorn : list bool := [false].
-Definition wcrash : dstate :=
-  mkDS (copies_at 1 wc wpre wrest 0)
-       (map (fun l => level_state (scheds wtrace) (nth l (par_base wpar wpre) []) (nth l wks 0) (nth l wtorn false))
-            (seq 0 (length wpar))).
 
 Example wtrace_shape :
   map (fun e => match e with MResize n => (0, n) | MSave _ => (1, 0) | MSched p _ => (2, p) | MFsync => (3, 0) | MDrain => (4, 0) end) wtrace =
-  [(0, 8); (1, 0); (2, 0); (2, 1); (2, 2); (2, 3); (3, 0); (1, 0); (2, 4); (2, 5); (2, 6); (2, 7); (4, 0); (3, 0); (1, 0)].
+  [(0, 8); (1, 0); (2, 0); (2, 1); (2, 2); (2, 3); (4, 0); (3, 0); (1, 0); (2, 4); (2, 5); (2, 6); (2, 7); (4, 0); (3, 0); (1, 0)].
 Proof. vm_compute. reflexivity. Qed.
 
-Theorem kill_inv_refuted_autosave_threaded :
-  crash_state (Threaded 8) 1 wc wpar wtrace wcrash /\
-  exists c, In c (ds_copies wcrash) /\ c <> wc /\
-    recorded_healthy c 0 = true /\
-    nth 0 (nth 0 (ds_par wcrash) []) PNone = PJunk 1 /\
-    wtrace = firstn 7 wtrace ++ MSave c :: skipn 8 wtrace /\
-    nth 0 (nth 0 (ideal_par wpar (firstn 7 wtrace)) []) PNone = PEnc [1%N; 11%N].
+(* right after the autosave every writer has done the four writes scheduled before it, in threaded mode (whatever the cache
+   depth) as in single-thread mode: the crash state of the former finding (no write done) is not admissible any more *)
+Example autosave_crash_point_drained :
+  (forall n k t, k_ok (Threaded n) wpre wrest k t -> 4 <= k) /\ (forall k t, k_ok Mono wpre wrest k t -> 4 <= k).
 Proof.
   split.
-  - unfold wcrash. apply (CrashAt (Threaded 8) 1 wc wpar wtrace wpre wrest 0 wks wtorn).
-    + symmetry. apply firstn_skipn.
-    + reflexivity.
-    + reflexivity.
-    + intros l Hl. assert (El : l = 0) by (vm_compute in Hl; lia). subst l.
-      unfold k_ok. vm_compute. repeat split; try lia; try discriminate.
-  - exists (last_save wc wpre). split; [vm_compute; left; reflexivity|].
-    split; [vm_compute; discriminate|].
-    split; [vm_compute; reflexivity|].
-    split; [vm_compute; reflexivity|].
-    split; vm_compute; reflexivity.
+  - intros n k t H. unfold k_ok in H. destruct H as [H _].
+    assert (E : drained wpre 0 = 4) by (vm_compute; reflexivity). rewrite E in H. lia.
+  - intros k t H. unfold k_ok in H. vm_compute in H. lia.
 Qed.
-
-(* the same crash point in single-thread mode: the four scheduled writes are done (every scheduled write is synchronous) *)
-Example mono_has_no_such_state :
-  forall k t, k_ok Mono wpre wrest k t -> 4 <= k.
-Proof. intros k t H. unfold k_ok in H. vm_compute in H. lia. Qed.
 
 (* ---------------------------------------------------------------------------------------------------------------- *)
 (* F-C07-parity-truncated-before-content-save: for the PRE-SYNC content c0 kill_inv claims nothing (its `c = c0` case), and   *)
